@@ -302,13 +302,13 @@ structure Field where
   rawTag : Option String
 deriving DecidableEq, Repr
 
-/-- `-json`, `-sql`, `-private`; `isLower` answers `unicode.IsLower` for the
+/-- `-json`, `-sql`, `-private`; `isUpper` answers `unicode.IsUpper` for the
 non-ASCII runes (ASCII is decided by the model). -/
 structure Flags where
   json : Bool
   sql : Bool
   priv : Bool
-  isLower : Char → Bool := fun _ => false
+  isUpper : Char → Bool := fun _ => false
 
 /-- Go's `f.Names[0]`. -/
 def index0 : List String → Out String
@@ -323,12 +323,15 @@ def fieldName (f : Field) : Out String :=
     | .ok n0 => .ok (f.names.tail.foldl (fun a n => a ++ ", " ++ n) n0)
     | e => e
 
-/-- `r, _ := utf8.DecodeRuneInString(name); unicode.IsLower(r)` (the empty name
-decodes to U+FFFD, which is not lower case). -/
+/-- `r, _ := utf8.DecodeRuneInString(name); !unicode.IsUpper(r)`: the name is not
+exported by Go's rule (the empty name decodes to U+FFFD, which is not upper
+case). The name `lowerFirst` is historical: until repair "plenctag leaves every
+unexported field alone" the test was `unicode.IsLower`, which let `_` and
+caseless scripts through. -/
 def lowerFirst (fl : Flags) (name : String) : Bool :=
   match name.toList with
-  | [] => false
-  | c :: _ => if c.toNat < 128 then c.isLower else fl.isLower c
+  | [] => true
+  | c :: _ => if c.toNat < 128 then !c.isUpper else !fl.isUpper c
 
 def isExcluded (fl : Flags) (tags : Tags) : Bool :=
   (fl.sql && match Tags.get tags "sql" with
